@@ -165,3 +165,24 @@ def nwOk {tl : Bool} (addr : Nat) : NW tl → List NMove → Bool
       | some w1 => nwOk addr w1 ms
 
 end Tw.NetC01
+
+namespace Tw.NetC01
+open Tw.Conn Tw.Net Tw.NetSim
+
+/-- a run of the composite world (non-vacuity): the remote (address 1) connects, its request reaches
+the endpoint, which meanwhile talks to address 2; the application accepts; the handshake completes
+over the network; the remote submits two vital chunks and one non-vital one, flushes; the second
+copy of its datagram is dropped by the sequence check; the endpoint's application answers -/
+def demoRun : List NMove :=
+  [.remCall [] .connect, .toNet 0 [] .exact, .net [] (.feed 2 (fun _ => some (connectPacket true))),
+   .toNet 0 [] .exact, .net [0x01020304] (.accept 0), .net [0x05060708] (.accept 1), .toRemote 0 [] .exact,
+   .remCall [] (.send [7] true), .remCall [] (.send [8] true), .remCall [] (.send [9] false),
+   .remCall [] .flush, .toNet 1 [] .exact, .toNet 2 [] .exact, .toNet 2 [] .exact,
+   .net [] (.send 0 [5] true), .net [] (.flush 0), .advance 600000, .net [] .tick, .toRemote 1 [] .exact]
+
+/-- endpoint: vital payloads reported for the peer, chunks accepted for it; remote: submitted vital,
+delivered vital -/
+def summary {tl : Bool} (w : NW tl) : List Bytes × List (Bytes × Bool) × List Bytes × List Bytes :=
+  (w.netVital, w.netSub, w.g.a.submittedVital, w.g.a.deliveredVital)
+
+end Tw.NetC01
